@@ -210,6 +210,112 @@ class Labels(Stage):
         return res
 
 
+class LabelsInSessions(Stage):
+    """labels used after the session has a history: connections were selected and deselected while traffic went on, the same
+    labels were given to filter / breakpoint commands (extending them) before; a label given to `list` must still select
+    exactly the messages of its object / connection, all of them"""
+    name = 'labels-in-sessions'
+
+    def examples(self, tier):
+        return 160 if tier == 'quick' else 14 * 1200
+
+    def gen(self, d, tier):
+        specs = histgen.history(d, nconn=d.int(2, 3), nmsg=d.int(8, 36), tagged=True, profile=dict(
+            reuse=0.75, weights=dict(delete=20, bind=12, message=42, server_event=12, sync=8)))
+        W = model.MWorld()
+        labels = []
+
+        def refresh():
+            labels[:] = [mc.name + ':' for mc in W.conns.values()] + [
+                '%s: %d%s' % (mc.name, o.id, model.letters(o.gen)) for mc in W.conns.values() for o in mc.all_objects() if o.id != 1]
+        items = []
+        for m in specs:
+            while labels and d.chance(0.3):
+                k = d.weighted([(5, 'select'), (3, 'all'), (4, 'filter-label'), (2, 'break-label'), (2, 'reset'), (3, 'list-label')])
+                if k == 'select': items.append(['cmd', 'connection ' + d.choice([mc.name for mc in W.conns.values()])])
+                elif k == 'all': items.append(['cmd', 'connection all'])
+                elif k == 'filter-label': items.append(['cmd', 'filter ' + d.choice(labels)])
+                elif k == 'break-label': items.append(['cmd', 'breakpoint ' + d.choice(labels)])
+                elif k == 'reset': items.append(['cmd', d.choice(['filter !', 'filter *', 'breakpoint !'])])
+                else: items.append(['cmd', 'list ' + d.choice(labels), 'check'])
+            items.append(['line', wire.render(m, 'new'), m['conn']])
+            W.step(m)
+            refresh()
+        # labels that filter / breakpoint commands were given come back on their own
+        used = [it[1].split(' ', 1)[1] for it in items if it[0] == 'cmd' and it[1].startswith(('filter ', 'breakpoint ')) and ':' in it[1]]
+        items.append(['cmd', 'connection all'])
+        for _ in range(d.int(2, 6)):
+            items.append(['cmd', 'list ' + (d.choice(used) if used and d.chance(0.5) else d.choice(labels)), 'check'])
+        return dict(specs=specs, items=items)
+
+    def execute(self, case):
+        res = Result()
+        res.evals = 0
+        s = session.Session()
+        segs = s.run(case['items'], prompt=False)
+        W = model.MWorld()
+        sel = None
+        nline = 0
+        checked = 0
+        for seg in segs:
+            it = s.io.items[seg.index] if seg.index < len(s.io.items) else None
+            if seg.kind == 'line':
+                W.step(case['specs'][nline])
+                nline += 1
+                continue
+            if seg.kind != 'cmd':
+                continue
+            if seg.text.startswith('connection '):
+                a = seg.text.split(' ', 1)[1]
+                sel = None if a == 'all' else a
+                continue
+            if len(it) < 3 or it[2] != 'check':
+                continue
+            form = seg.text.split(' ', 1)[1]
+            cname, _, rest = form.partition(':')
+            rest = rest.strip()
+            mc = next(c for c in W.conns.values() if c.name == cname)
+            rc = next((c for c in s.cm.connections() if c.name() == cname), None)
+            if rc is None or len(rc.messages()) < len(mc.msgs):
+                res.bad('session:connection-record', '%s: %r recorded, model %d' % (cname, rc and len(rc.messages()), len(mc.msgs)))
+                continue
+            recorded = rc.messages()[:len(mc.msgs)]      # (evaluated after the run: the record as it was when the command ran)
+            if rest:
+                import re as _re
+                mm = _re.fullmatch(r'(\d+)([a-z]+)', rest)
+                oid, gen = int(mm.group(1)), kth_index(mm.group(2))
+                mo = mc.db[oid][gen]
+                exp = [msg for msg, rec in zip(recorded, mc.msgs) if mc.mentions(rec, mo)]
+            else:
+                exp = list(recorded)
+            if sel is not None and sel != cname:
+                exp = []                 # another connection is selected: nothing of this one is listed
+            got = [l for l in seg.out_lines() if session.MSG_LINE.match(l)]
+            want = session.render_shown(exp)
+            res.evals += len(mc.msgs)
+            checked += 1
+            if got != want:
+                extra = [l for l in got if l not in want]
+                missing = [l for l in want if l not in got]
+                res.bad('session:list-label-%s' % ('selects-unrelated' if extra else 'misses-messages'),
+                        '`%s` after %r printed %d lines, expected %d; extra %r missing %r' % (
+                            seg.text, [i[1] for i in case['items'][:seg.index] if i[0] == 'cmd'][-6:], len(got), len(want), extra[:2], missing[:2]))
+        cmds = [i[1] for i in case['items'] if i[0] == 'cmd']
+        res.nontrivial = checked >= 2 and any(c.startswith('connection ') and c != 'connection all' for c in cmds) and any(c.startswith('filter ') and ':' in c for c in cmds)
+        if any(c.startswith('connection ') and c != 'connection all' for c in cmds): res.label('selection-while-streaming')
+        if any(c.startswith('filter ') and ':' in c for c in cmds): res.label('label-given-to-filter-before')
+        res.count('label-listings-checked', checked)
+        res.sample = dict(commands=cmds[:12], messages=len(case['specs']))
+        return res
+
+
+def kth_index(letters_text):
+    n = 0
+    while kth(n) != letters_text:
+        n += 1
+    return n
+
+
 class ManyConnections(Stage):
     """more than 26 connections: names run past Z (AA, AB, ...) and still work as matchers"""
     name = 'many-connections'
@@ -307,9 +413,11 @@ class C14(Prop):
             'histories (incl. deep id reuse and > 26 connections) used as matcher `CONN: id+letters` / `CONN:` and compared in both inclusions '
             'with the reference model\'s mention sets, also through `list <label>`. non-trivial = case containing an object whose id has >= 2 '
             'incarnations or is in use on >= 2 connections (enumeration chunks all count); sink-names: open/message/close sequences on the '
-            'connection-id interface, names distinct and `X:` exact (non-trivial = >= 3 connections with a re-open); distinct by SHA-1 of the case.')
+            'connection-id interface, names distinct and `X:` exact (non-trivial = >= 3 connections with a re-open); labels-in-sessions: scripted sessions in which connections '
+            'are selected / deselected while messages stream in and labels are given to filter / breakpoint commands, then `list <label>` is compared with the '
+            'model\'s mention set over that connection\'s own record (non-trivial = >= 2 listings checked after a selection and a label filter); distinct by SHA-1 of the case.')
     assumptions = ['reference model of DESIGN appendix B decides which messages are on / mention / create / destroy an object']
-    stages = [Letters(), LettersFar(), Labels(), ManyConnections(), SinkNames()]
+    stages = [Letters(), LettersFar(), Labels(), LabelsInSessions(), ManyConnections(), SinkNames()]
 
 
 PROP = C14()
